@@ -1,7 +1,9 @@
 """C08 — activation / deactivation boundaries are exact under any interleaving with concurrent updates.
 
 The real Dispatcher + modules run under the deterministic scheduler (vlib.sched): request threads `h<cid>` (one per
-connection, a script of activate/deactivate/ident/disconnect) and updater threads `u<k>` (a script of assignments).
+connection, a script of activate/deactivate/ident/disconnect and read/change requests with the scripted result of the driver
+function) and updater threads `u<k>` (a script of assignments, each with its time stamp).  Initial states (`init`), omit
+windows (`omit`) and the module class (`cls`) are part of a case.
 Every explored schedule is (1) replayed label by label on the Lean model (`k: replay`) and compared through the
 observable trace, the final cache and the dispatcher's tables after every completed operation, (2) judged by the Lean
 monitors (`k: judge`).  Nothing about the property is decided here.
@@ -17,7 +19,7 @@ import os
 import frappy.modulebase
 import frappy.protocol.dispatcher
 from frappy.datatypes import FloatRange
-from frappy.errors import CommunicationFailedError, HardwareError
+from frappy.errors import CommunicationFailedError, ConfigError, HardwareError
 from frappy.modules import Command, Parameter, Readable
 
 from check import Result
@@ -27,43 +29,58 @@ from vlib.shrink import ddmin
 
 META = {
     'level_text': 'Theorems (for all interleavings of any number of connections and updaters, all module/parameter names as strings, any '
-                  'outcome of the logging switch-off, any per-parameter choice of "unchanged values are / are not re-announced", on the '
-                  'labelled transition system that models the repaired dispatcher): '
-                  'snapshot_complete, no_loss, quiescent_last_eq_cache, silent_after_deactivate, each also in an index form that says the '
+                  'outcome of the logging switch-off, any initial cache (values, error states, "not initialized"), any per-parameter omit '
+                  'window, any time stamps, any read / change requests with any driver result, on the labelled transition system that '
+                  'models the repaired dispatcher): '
+                  'snapshot_complete, no_loss, quiescent_last_eq_cache and quiescent_last_eq_node_cache (the last message equals the '
+                  'node\'s entry, time stamp included), silent_after_deactivate, each also in an index form that says the '
                   'English sentence without the monitor (silent_after_deactivate_explicit, snapshot_complete_explicit with replies_match, '
                   'no_loss_explicit with firm_in_force_explicit; snapshot_monitor_sound / noloss_monitor_sound for ANY trace, i.e. also '
                   'for the implementation traces the monitors judge), others_unaffected, tables_others_unaffected + broadcast_leaves_tables '
                   '(no action changes a table row of another connection; an updater changes none), tables_own (every table entry under '
                   'whatever key is an activation of that very connection still possibly in force), deactivate_exact (the string tests of '
                   'unsubscribe = the matching deactivate), only_exported (no update of a parameter / module that is not exported is ever '
-                  'delivered, whatever is activated or assigned), deadlock_free.  The model is tied to frappy/protocol/dispatcher.py and '
-                  'modulebase.announceUpdate by replaying every explored schedule of the real code label by label (request arrival, lock '
-                  'acquire/release, send, end) on the model and comparing the global observable trace, the final cache and the '
-                  'dispatcher\'s tables (_active_connections, _subscriptions) after every completed operation; the Lean monitors of '
-                  'Spec/C08 judge every implementation trace.',
+                  'delivered, whatever is activated or assigned), cache_changes_only_by_store + omitted_announcement_stores_nothing (the '
+                  'cache, time stamps included, changes only by a store that is in the trace), omit_window_exact, '
+                  'request_update_within_request + request_stores_what_the_request_says (an update produced by a read / change request is '
+                  'announced by the requesting thread inside that request, for that parameter, with the driver\'s result, and is covered '
+                  'by all clauses above), deadlock_free (_lock -> accessLock -> updateLock -> _subscription_lock).  The model is tied to '
+                  'frappy/protocol/dispatcher.py and modulebase.announceUpdate / the read_ and write_ wrappers by replaying every explored '
+                  'schedule of the real code label by label (request arrival, lock acquire/release, send, end) on the model and comparing '
+                  'the global observable trace (values, error classes, time stamps), the final cache and the dispatcher\'s tables '
+                  '(_active_connections, _subscriptions) after every completed operation; the Lean monitors of Spec/C08 judge every '
+                  'implementation trace, the quiescence clause against the cache read from the real node.',
     'level_note': 'Trusted: Lean kernel + axioms propext/Classical.choice/Quot.sound; the deterministic scheduler preempts only at request '
                   'arrival, lock and send primitives; threading.RLock, the TCP handler send lock and set iteration order are modelled, not '
-                  'verified; the omit window of a parameter is either 0 or longer than the run.',
+                  'verified; time stamps are scripted whole numbers (the clock inside announceUpdate is a stand-in).',
     'trusted': [
         'the scheduler yields only at request arrival, lock acquire/release and at send_reply: a preemption inside broadcast_event '
         'between the three set reads is not exercised by the harness (the model covers it by the lock discipline: the sets are only read '
         'and written under _subscription_lock, and the tables are compared with the model after every completed operation)',
-        'omit window for unchanged values: per parameter either 0 (update_unchanged=\'always\') or longer than the run '
-        '(update_unchanged=\'never\', a long omit_unchanged_within); a window that ends during a run is not modelled',
-        'the `emit` event is recorded by a paramCallback, i.e. right after the store under the update lock and before the broadcast '
-        '(a different order in announceUpdate shows as a correspondence disagreement, not as a verdict)',
+        'time stamps: frappy.modulebase.time is replaced by a scripted clock (a thread carrying out a scripted assignment reads that '
+        'assignment\'s time stamp, start-up reads a constant), so every time stamp is a whole number; the omit-window comparison is '
+        'transcribed exactly (Cfg.omitWithin), real float time is not run',
+        'the `emit` event is recorded by a paramCallback, i.e. right after the store under the update lock and before the broadcast, '
+        '`emitDone` at the return of announceUpdate (a different order in announceUpdate shows as a correspondence disagreement, not as a '
+        'verdict)',
         'the reply of a request is sent by the connection thread after handle_request returned, outside every dispatcher lock '
         '(frappy/protocol/interface/handler.py), which the harness thread reproduces; the request marker is written by the harness '
         'thread right after the `recv` scheduling point',
+        'which read / change requests are refused, answered from the cache, or go through the read_/write_ wrapper is computed by the '
+        'model (rwKindOf, a transcription of the checks of _getParameterValue / _setParameterValue) from the parameter table the harness '
+        'reads off the real objects (readonly, constant, has a read_ function); the theorems hold for every such table (Cfg.rw is '
+        'universally quantified); what the driver function returns or raises is part of the request script',
     ],
     'modelled_not_verified': [
         'Python threading.RLock semantics (mutual exclusion, re-entrance, no fairness)',
         'the TCP handler send lock / socket: send_reply is one atomic labelled step',
         'iteration order of the listener set in broadcast_event (the model allows any order; the replay follows the real one)',
+        'module.accessLock: acquired / released by request threads only (no lock state; never contended while _lock is held)',
     ],
-    'assumptions': ['updaters assign through setattr / announceUpdate only; values are integral floats; errors are SECoP error classes',
+    'assumptions': ['updaters assign through setattr / announceUpdate only (a poller going through read_<p> takes accessLock first: not '
+                    'modelled for updater threads); values are integral floats; errors are SECoP error classes',
                     'one request thread per connection; a connection is disconnected by its own thread',
-                    'updates are produced by updater (poller) threads, not by read/change requests of a connection'],
+                    'data of change requests passes import_value / validate / the limit checks (values are chosen so)'],
 }
 
 
@@ -106,9 +123,14 @@ def policy_for(case):
 
 
 ERRS = [(HardwareError, HardwareError.name), (CommunicationFailedError, CommunicationFailedError.name)]
+# error classes as they are observed (index = the model's error class): what updaters / driver functions raise (ERRS), and the
+# start-up state of a parameter without value ("not initialized": ConfigError, no time stamp)
+OBS_ERRS = [HardwareError, CommunicationFailedError, ConfigError]
+UNINIT = 2
 # attribute names updaters assign to; exported as value, target, target_max, _a, _ab: `target`/`target_max` and `_a`/`_ab`
 # are prefix-related specifiers, as are the module names T / T2 / T_x used by the scenarios
 FLOATS = ['value', 'a', 'ab', 'target', 'target_max']
+T0 = 1000          # the clock while nothing is scripted: every time stamp taken at start-up is exactly this
 
 
 class M(Readable):
@@ -118,44 +140,130 @@ class M(Readable):
     target_max = Parameter('tm', FloatRange(), default=0.0, readonly=False, export='target_max')
     h = Parameter('not exported', FloatRange(), default=0.0, readonly=False, export=False)
 
+    driver = None      # set per run: driver(kind, attr, value) -> what the hardware answers (or raises) for this thread
+
     @Command()
     def go(self):
         """a command (activate on it must fail)"""
 
+    def _drv(self, kind, attr, value):
+        if self.driver is not None:
+            return self.driver(self, kind, attr, value)
+        return getattr(self, attr) if kind == 'read' else value
+
     def read_value(self):
-        return self.value
+        return self._drv('read', 'value', None)
 
     def read_status(self):
         return self.status
 
     def read_a(self):
-        return self.a
+        return self._drv('read', 'a', None)
 
     def read_ab(self):
-        return self.ab
+        return self._drv('read', 'ab', None)
+
+    def write_a(self, value):
+        return self._drv('write', 'a', value)
+
+    def write_ab(self, value):
+        return self._drv('write', 'ab', value)
+
+    def write_target(self, value):
+        return self._drv('write', 'target', value)
+
+    def write_target_max(self, value):
+        return self._drv('write', 'target_max', value)
+
+
+class M2(M):
+    """a second parameter without default: like `value` it starts as "not initialized" unless the run initialises it"""
+    nd = Parameter('no default', FloatRange(), readonly=False)
+
+    def read_nd(self):
+        return self._drv('read', 'nd', None)
+
+    def write_nd(self, value):
+        return self._drv('write', 'nd', value)
+
+
+CLASSES = {'M': M, 'M2': M2}
+READ_FN = ('value', 'a', 'ab', 'nd')      # attributes with a read_ function that goes through the driver hook
+
+
+def _stamp(ts):
+    """a time stamp as the model counts it: none -> 0; the scripted ones are whole numbers"""
+    if not ts:
+        return 0
+    return int(ts) if float(ts) == int(ts) else 999999
+
+
+def _err_index(name):
+    names = [c.__name__ for c in OBS_ERRS]
+    return names.index(name) if name in names else 99
 
 
 def entry_of(pobj):
-    """observation of a parameter's current state: ["v", int] | ["e", error class index]"""
+    """observation of a parameter's current state: ["v", int, t] | ["e", error class index, t]"""
+    t = _stamp(pobj.timestamp)
     if pobj.readerror:
-        names = [c.__name__ for c, _ in ERRS]
-        n = type(pobj.readerror).__name__
-        return ['e', names.index(n) if n in names else 99]
+        return ['e', _err_index(type(pobj.readerror).__name__), t]
     v = pobj.value
     if isinstance(v, (tuple, list)):
         v = v[0]
-    return ['v', int(v)]
+    return ['v', int(v), t]
 
 
 def msg_entry(msg):
-    """the same observation decoded from an update / error_update message"""
+    """the same observation decoded from an update / error_update message (value or error class, qualifier t)"""
+    t = _stamp(msg[2][-1].get('t'))
     if msg[0] == 'error_update':
-        names = [n for _, n in ERRS]
-        return ['e', names.index(msg[2][0]) if msg[2][0] in names else 99]
+        names = [c.name for c in OBS_ERRS]
+        return ['e', names.index(msg[2][0]) if msg[2][0] in names else 99, t]
     v = msg[2][0]
     if isinstance(v, (tuple, list)):
         v = v[0]
-    return ['v', int(v)]
+    return ['v', int(v), t]
+
+
+class ScriptClock:
+    """stand-in for `time` in frappy.modulebase: a thread that carries out a scripted assignment reads the time stamp of that
+    assignment; everything else (start-up) reads T0.  So every time stamp in the node is a whole number the model knows."""
+
+    def __init__(self, sched):
+        self._sched, self._base = sched, sched.time
+        self.override = {}
+
+    def time(self):
+        me = self._sched.me()
+        t = self.override.get(me.name) if me is not None else None
+        return float(T0 if t is None else t)
+
+    def __getattr__(self, name):
+        return getattr(self._base, name)
+
+
+RW = ('read', 'change')
+
+
+def rw_spec(r):
+    """the specifier of a read / change request in full: `modulename, pname = specifier, 'value'` ('target' for a change)"""
+    spec = r[1]
+    return spec if ':' in spec else spec + (':target' if r[0] == 'change' else ':value')
+
+
+def param_table(node):
+    """the static facts the dispatcher's checks in front of the driver call look at, for every parameter of every module of the
+    node (also modules that are not exported) that has an exported name: [module, exported name, readonly, constant, the class
+    defines read_<p>].  The model (`rwKindOf`) decides from these what a read / change request does."""
+    out = []
+    for mn, mo in node.secnode.modules.items():
+        for ename, attr in mo.accessiblename2attr.items():
+            pobj = mo.parameters.get(attr)
+            if pobj is not None:
+                has_read = getattr(type(mo), 'read_' + attr).poll is not False or attr in READ_FN
+                out.append([mn, ename, bool(pobj.readonly), pobj.constant is not None, bool(has_read)])
+    return sorted(out)
 
 
 class Info:
@@ -180,11 +288,25 @@ class Info:
         return spec or None
 
     def req(self, r):
+        if r[0] in RW:
+            return [r[0], rw_spec(r), r[2]]
+        if r[0] == 'bad':
+            return ['bad', r[1], r[2] or '']
         return [r[0], self.scope(r[1])] if r[0] in ('activate', 'deactivate') else [r[0]]
 
     def cache(self, node):
         return [[self.mid(mn), self.pid(mn, pobj.export), entry_of(pobj)] for mn in self.mods
                 for pobj in node.modules[mn].accessibles.values() if isinstance(pobj, Parameter) and pobj.export]
+
+
+def emitter(name):
+    """who stores a value, as the model numbers the updater slots: 2k for updater thread k, 2c+1 for the request thread of
+    connection c (which runs announceUpdate itself inside a read / change request)"""
+    if name[:1] == 'u' and name[1:].isdigit():
+        return 2 * int(name[1:])
+    if name[:1] == 'h' and name[1:].isdigit():
+        return 2 * int(name[1:]) + 1
+    return None
 
 
 class SConn(Conn):
@@ -206,12 +328,19 @@ class SConn(Conn):
             if me is not None and me.name.startswith('u'):
                 self.stat['bcast'] += 1
                 self.stat['during' if self.current is not None and self.current[0] == 'activate' else 'after'] += 1
+            elif me is not None and self.sched_current_rw(me):
+                self.stat['bcast'] += 1
+                self.stat['own'] += 1
             else:
                 self.stat['snap'] += 1
         elif msg[0] != 'log':
             self.events.append(['reply', self.cid, self.current, not msg[0].startswith('error_')])
             self.completed()
             self.current = None
+
+    def sched_current_rw(self, me):
+        """is the sending thread a request thread inside a read / change (it delivers an update it produced itself)"""
+        return self.stat['rw_thread'].get(me.name, False)
 
 
 def _name(lock, name):
@@ -220,7 +349,9 @@ def _name(lock, name):
 
 
 def _tid(name):
-    return [name[0], int(name[1:])] if name[:1] in 'hu' and name[1:].isdigit() else name
+    if name[:1] in 'hu' and name[1:].isdigit():
+        return [name[0], int(name[1:]) * (2 if name[0] == 'u' else 1)]
+    return name
 
 
 def _label(label, info):
@@ -229,6 +360,8 @@ def _label(label, info):
             return n
         if isinstance(n, str) and n.startswith('upd:'):
             return ['upd', info.mid(n[4:])]
+        if isinstance(n, str) and n.startswith('acc:'):
+            return ['acc', info.mid(n[4:])]
         return str(n)
     if label[0] in ('acquire', 'release') and len(label) == 2:
         return [label[0], lk(label[1])]
@@ -241,12 +374,29 @@ def _label(label, info):
     return str(label)
 
 
+def omit_cfg(case):
+    """case['omit']: list of attributes with update_unchanged='never' ('*': every module gets a long omit_unchanged_within), or
+    a dict attribute -> window ('never' | seconds), '*' -> the module's omit_unchanged_within"""
+    omit = case.get('omit') or {}
+    if isinstance(omit, list):
+        omit = {a: (1000 if a == '*' else 'never') for a in omit}
+    return omit
+
+
+def with_stamps(script, start=T0 + 1):
+    """assignments [module, attribute, entry]: an entry without time stamp gets start + its position"""
+    return [[mn, a, e if len(e) > 2 else [e[0], e[1], start + i]] for i, (mn, a, e) in enumerate(script)]
+
+
 def run_case(case, policy):
     """run one case on the real code under the scheduler; returns (scheduler, observation dict)"""
     s = Scheduler(policy=policy, max_steps=5000)
     events, emitted, blocked, tabs, boundary = [], {}, [], [], {}
-    stat = {'bcast': 0, 'snap': 0, 'during': 0, 'after': 0, 'dropped': 0, 'hidden': 0}
+    stat = {'bcast': 0, 'snap': 0, 'during': 0, 'after': 0, 'dropped': 0, 'hidden': 0, 'own': 0, 'rw_thread': {},
+            'uninit': 0, 'window-ended': 0}
     orig_block, orig_yield = s.block, s.yield_
+    clock = ScriptClock(s)
+    script_value = {}         # thread name -> what the driver function called by this thread returns / raises
 
     def yield_(label):
         orig_yield(label)
@@ -261,30 +411,53 @@ def run_case(case, policy):
         blocked.append(label[1] if len(label) > 1 else label[0])
         return orig_block(label, cond, timeout)
     s.block = block
-    with s.patched(frappy.modulebase, threading=s.threading, time=s.time, mkthread=s.mkthread), \
+
+    def driver(mo, kind, attr, value):
+        me = s.me()
+        e = script_value.get(me.name) if me is not None else None
+        if e is None:
+            return getattr(mo, attr) if kind == 'read' else value
+        if e[0] == 'e':
+            raise ERRS[e[1]][0]('x')
+        return float(e[1])
+
+    with s.patched(frappy.modulebase, threading=s.threading, time=clock, mkthread=s.mkthread), \
             s.patched(frappy.protocol.dispatcher, threading=s.threading, currenttime=s.time):
-        # unchanged values: `omit` lists the attributes configured with update_unchanged='never'; '*' gives every module an
-        # omit_unchanged_within far longer than the run (virtual time advances by microseconds); everything else: window 0
-        omit = case.get('omit', [])
-        mcfg = {'cls': M, 'description': 'x'}
-        mcfg.update({a: {'update_unchanged': 'never'} for a in omit if a != '*'})
+        # unchanged values: see omit_cfg; everything else: window 0
+        omit = omit_cfg(case)
+        mcfg = {'cls': CLASSES[case.get('cls', 'M')], 'description': 'x'}
+        mcfg.update({a: {'update_unchanged': w} for a, w in omit.items() if a != '*'})
         if '*' in omit:
-            mcfg['omit_unchanged_within'] = 1000
+            mcfg['omit_unchanged_within'] = omit['*']
         modcfg = {mn: dict(mcfg, description=mn) for mn in case['mods']}
         modcfg.update({mn: dict(mcfg, description=mn, export=False) for mn in case.get('hidden_mods', [])})
         node = Node(modcfg, omit_unchanged_within=0)
         info = Info(node)
-        omit_same = [[info.mid(mn), pobj.export] for mn in info.mods for pobj in node.modules[mn].parameters.values()
-                     if pobj.export and pobj.omit_unchanged_within > 0]
+        omit_within = [[info.mid(mn), pobj.export, int(min(pobj.omit_unchanged_within, 10 ** 9))] for mn in info.mods
+                       for pobj in node.modules[mn].parameters.values() if pobj.export and pobj.omit_unchanged_within > 0]
         _name(node.dispatcher._lock, 'disp')
         _name(getattr(node.dispatcher, '_subscription_lock', None), 'sub')
         for mn, mo in node.modules.items():
             _name(mo.updateLock, 'upd:' + mn)
             _name(mo.accessLock, 'acc:' + mn)
+            mo.driver = driver
+        # initial states: case['init'][module][attribute] = 'uninit' (left as the start-up code leaves a parameter without value:
+        # ConfigError "not initialized", no time stamp) | an entry (announced at T0); without the key: initialised with its default
+        init = case.get('init', {})
         for mn in info.mods:
             mo = node.modules[mn]
             for pobj in mo.parameters.values():
-                if pobj.export and pobj.readerror:      # `value` starts as "not initialized"
+                how = init.get(mn, {}).get(pobj.name)
+                if how == 'uninit':
+                    if pobj.export and pobj.readerror:
+                        stat['uninit'] += 1
+                    continue
+                if how is not None:
+                    if how[0] == 'e':
+                        mo.announceUpdate(pobj.name, err=ERRS[how[1]][0]('x'))
+                    else:
+                        mo.announceUpdate(pobj.name, float(how[1]))
+                elif pobj.export and pobj.readerror:      # a parameter without default starts as "not initialized"
                     mo.announceUpdate(pobj.name, pobj.value)
         cache0 = info.cache(node)
 
@@ -308,15 +481,36 @@ def run_case(case, policy):
         def mkcb(m_id, p_id, pobj):
             def cb(*value_err):
                 me = s.me()
-                if me is not None and me.name.startswith('u'):
-                    u = int(me.name[1:])
-                    events.append(['emit', u, m_id, p_id, entry_of(pobj)])
-                    emitted[u] = True
+                eid = emitter(me.name) if me is not None else None
+                if eid is not None:
+                    events.append(['emit', eid, m_id, p_id, entry_of(pobj)])
+                    emitted[eid] = True
             return cb
+
+        def wrap_announce(mo):
+            """the end of an announced assignment (`emitDone`) is the return of announceUpdate, whoever called it: an updater
+            thread, or a request thread inside read_<p> / write_<p>"""
+            orig = mo.announceUpdate
+
+            def announce(*args, **kwds):
+                try:
+                    return orig(*args, **kwds)
+                finally:
+                    me = s.me()
+                    eid = emitter(me.name) if me is not None else None
+                    if eid is not None and emitted.get(eid):
+                        events.append(['emitDone', eid])
+                        completed()
+                        emitted[eid] = False
+                        emitted[('did', eid)] = True
+            mo.announceUpdate = announce
+        floats = FLOATS + (['nd'] if case.get('cls') == 'M2' else [])
         for mn in info.mods:
             mo = node.modules[mn]
-            for a in FLOATS:      # (a parameter that is not exported gets no callback here: nothing is announced for it)
+            for a in floats:      # (a parameter that is not exported gets no callback here: nothing is announced for it)
                 mo.addCallback(a, mkcb(info.mid(mn), info.pid(mn, info.attr[mn][a]), mo.parameters[a]))
+        for mo in node.modules.values():
+            wrap_announce(mo)
         conns = {}
         for cid in range(1, case['nconn'] + 1):
             conns[cid] = node.conns[cid] = SConn(cid, s, events, info, stat, completed)
@@ -324,8 +518,9 @@ def run_case(case, policy):
 
         def handler(cid, script):
             conn = conns[cid]
+            name = 'h%d' % cid
             for i, r in enumerate(script):
-                boundary['h%d' % cid] = i > 0         # a thread that has not started stands before its first operation anyway
+                boundary[name] = i > 0                # a thread that has not started stands before its first operation anyway
                 s.yield_(('recv',))                   # the request arrives: other threads may run before the marker is written
                 rj = info.req(r)
                 events.append(['reqStart', cid, rj])
@@ -342,23 +537,39 @@ def run_case(case, policy):
                     break
                 if r[0] == 'ident':
                     reply = node.request(conn, '*IDN?')
+                elif r[0] in RW:
+                    e = r[2]
+                    script_value[name], clock.override[name], stat['rw_thread'][name] = e, e[2], True
+                    try:
+                        reply = node.request(conn, r[0], r[1], float(e[1]) if r[0] == 'change' else None)
+                    finally:
+                        script_value[name], clock.override[name], stat['rw_thread'][name] = None, None, False
+                elif r[0] == 'bad':      # refused on the first lines of the handler: ['bad', action, specifier, data]
+                    reply = node.request(conn, r[1], r[2], r[3])
                 else:
                     reply = node.request(conn, r[0], r[1], None)
                 conn.send_reply(reply)
             s.yield_(('end',))
 
         def updater(u, script):
+            name, eid = 'u%d' % u, 2 * u
             for i, (mn, a, e) in enumerate(script):
-                boundary['u%d' % u] = i > 0
+                boundary[name] = i > 0
                 mo = node.modules[mn]
+                pobj = mo.parameters[a]
+                before = entry_of(pobj)
+                emitted[('did', eid)] = False
                 if e[0] == 'e':
-                    mo.announceUpdate(a, err=ERRS[e[1]][0]('x'))
+                    mo.announceUpdate(a, err=ERRS[e[1]][0]('x'), timestamp=float(e[2]))
                 else:
-                    setattr(mo, a, float(e[1]))
-                if emitted.get(u):
-                    events.append(['emitDone', u])
-                    completed()
-                    emitted[u] = False
+                    clock.override[name] = e[2]       # the clock read inside announceUpdate
+                    try:
+                        setattr(mo, a, float(e[1]))
+                    finally:
+                        clock.override[name] = None
+                if emitted[('did', eid)]:
+                    if e[0] == 'v' and before[:2] == e[:2]:
+                        stat['window-ended'] += 1     # the same value again, announced: its window was over (or is 0)
                 elif e[0] == 'v' and a in info.attr.get(mn, {}):
                     stat['dropped'] += 1          # an unchanged value inside its omit window
                 elif a not in info.attr.get(mn, {}):
@@ -366,7 +577,8 @@ def run_case(case, policy):
             s.yield_(('end',))
 
         hs = sorted((int(c), scr) for c, scr in case['handlers'].items())
-        us = sorted((int(u), scr) for u, scr in case['updaters'].items())
+        us = sorted((int(u), with_stamps(scr)) for u, scr in case['updaters'].items())
+        params = param_table(node)
         for cid, scr in hs:
             s.spawn('h%d' % cid, handler, (cid, scr))
         for u, scr in us:
@@ -383,19 +595,23 @@ def run_case(case, policy):
         raise RuntimeError(f'scheduler aborted ({result["aborted"]}) on case {json.dumps(case)}')
     setup = {'mods': [[mn, list(info.pars[mn])] for mn in info.mods],
              'conns': sorted(conns), 'cache': cache0, 'logFails': sorted(conns) if case.get('broken_logging') else [],
-             'omitSame': omit_same}
+             'omitWithin': omit_within, 'params': params}
+    stat.pop('rw_thread')
     obs = {'events': events, 'cache': cache1, 'result': result, 'setup': setup, 'stat': stat, 'blocked': blocked, 'tabs': tabs,
            'sched': [[_tid(t), _label(l, info)] for t, l in s.trace],
            'handlers': [[cid, [info.req(r) for r in scr]] for cid, scr in hs],
-           'updaters': [[u, [[info.mid(mn), info.attr.get(mn, {}).get(a, '#' + a), e] for mn, a, e in scr]] for u, scr in us],
+           'updaters': [[2 * u, [[info.mid(mn), info.attr.get(mn, {}).get(a, '#' + a), e] for mn, a, e in scr]] for u, scr in us],
            'choices': [c for _, c, _ in s.choices], 'preempt': sum(1 for _, c, d in s.choices if c != d)}
     return s, obs
 
 
 def requests(obs):
     su = obs['setup']
-    return [dict(su, p='C08', k='replay', handlers=obs['handlers'], updaters=obs['updaters'], sched=obs['sched']),
-            dict(su, p='C08', k='judge', trace=obs['events'])]
+    finished = not obs['result']['deadlock'] and not obs['result']['errors']
+    judge = dict(su, p='C08', k='judge', trace=obs['events'])
+    if finished:
+        judge['final'] = obs['cache']      # the node's cache read from the real objects at the end of the run
+    return [dict(su, p='C08', k='replay', handlers=obs['handlers'], updaters=obs['updaters'], sched=obs['sched']), judge]
 
 
 def _diff(a, b):
@@ -440,7 +656,7 @@ def assess(obs, model, judge, model_ok=True):
             kind = 'never-active'
             if prev:
                 r, ok = prev[-1][2], prev[-1][3]
-                kind = {'deactivate': 'inactive', 'ident': 'ident', 'disconnect': 'disconnect'}.get(
+                kind = {'deactivate': 'inactive', 'ident': 'ident', 'disconnect': 'disconnect', 'read': 'read', 'change': 'change'}.get(
                     r[0], 'active' if ok else 'failed-activate')
             shape = 'update-after-' + kind
         elif clause == 'snapshot':
@@ -490,9 +706,13 @@ def judge_case(ctx, case):
 # ----------------------------------------------------------------------------------------
 # scenarios
 # ----------------------------------------------------------------------------------------
-def scn(kind, mods, handlers, updaters, broken_logging=False, omit=None, hidden_mods=None):
+def scn(kind, mods, handlers, updaters, broken_logging=False, omit=None, hidden_mods=None, cls=None, init=None):
     case = {'mods': mods, 'nconn': len(handlers), 'handlers': {str(i + 1): h for i, h in enumerate(handlers)},
             'updaters': {str(i + 1): u for i, u in enumerate(updaters)}}
+    if cls:
+        case['cls'] = cls
+    if init:
+        case['init'] = init
     if broken_logging:
         case['broken_logging'] = True
     if omit:
@@ -503,12 +723,84 @@ def scn(kind, mods, handlers, updaters, broken_logging=False, omit=None, hidden_
 
 
 def gen_omit(rng):
+    """no window (60 %), a long one for the whole module, `never` for some parameters, or short windows (1-3 time units)
+    that end during the run"""
     r = rng.random()
-    return None if r < 0.6 else ['*'] if r < 0.75 else rng.sample(FLOATS, rng.randint(1, 3))
+    if r < 0.5:
+        return None
+    if r < 0.6:
+        return ['*']
+    if r < 0.7:
+        return rng.sample(FLOATS, rng.randint(1, 3))
+    if r < 0.8:
+        return {'*': rng.randint(1, 3)}
+    return {a: rng.choice([1, 2, 3, 'never']) for a in rng.sample(FLOATS, rng.randint(1, 3))}
+
+
+def gen_init(rng, mods, cls):
+    """initial states: mostly as configured; sometimes `value` (and `nd` of M2) is left "not initialized", sometimes a
+    parameter starts in an ordinary error state or with another value"""
+    init = {}
+    for mn in mods:
+        d = {}
+        for a in ['value'] + (['nd'] if cls == 'M2' else []):
+            if rng.random() < 0.6:
+                d[a] = 'uninit'
+        if rng.random() < 0.3:
+            d[rng.choice(FLOATS)] = E(rng.randrange(len(ERRS))) if rng.random() < 0.5 else V(rng.randint(1, 9))
+        if d:
+            init[mn] = d
+    return init
+
+
+class Stamps:
+    """time stamps of one thread's scripted assignments: mostly increasing by 0-3, now and then going back"""
+
+    def __init__(self, rng, start=None):
+        self.rng, self.t = rng, (T0 + 1 + rng.randint(0, 3)) if start is None else start
+
+    def next(self):
+        self.t = max(T0 + 1, self.t + self.rng.choice([0, 1, 1, 2, 3, -2]))
+        return self.t
+
+
+def gen_bad(rng, specs):
+    """a request the handler refuses as malformed before it looks at anything"""
+    spec = rng.choice([s for s in specs if s] or ['T'])
+    return rng.choice([['bad', 'activate', rng.choice([spec, None]), 1], ['bad', 'deactivate', rng.choice([spec, None]), 1],
+                       ['bad', 'read', spec, 1], ['bad', 'read', None, None], ['bad', 'change', None, 5]])
+
+
+def gen_rw(rng, mods, stamps, hot=None, hidden=()):
+    """a read / change request: mostly a parameter with a driver function, a value or an error from the driver; sometimes
+    something refused (unknown module / parameter, a read-only parameter) or answered without the driver (no read_ function)"""
+    w = rng.random() < 0.4
+    r = rng.random()
+    mn = rng.choice(mods)
+    attrs = ['a', 'ab', 'target', 'target_max'] if w else ['value', 'a', 'ab']
+    a = rng.choice(hot) if hot and rng.random() < 0.6 and set(hot) & set(attrs) else rng.choice(attrs)
+    if a not in attrs:
+        a = rng.choice(attrs)
+    spec = mn + ':' + EXPORT[a]
+    if r < 0.08:
+        spec = rng.choice(['zz:value', mn + ':nosuch', mn + ':go', mn + ':value' if w else mn + ':h'])
+    elif r < 0.16:
+        spec = rng.choice([mn + ':target', mn + ':target_max', mn + ':pollinterval']) if not w else mn + ':_a'
+    elif r < 0.22:
+        spec = mn      # `read T` = T:value, `change T` = T:target
+    elif r < 0.27 and hidden:
+        spec = hidden[0] + ':' + ('_a' if w else 'value')
+    e = E(rng.randrange(len(ERRS))) if rng.random() < 0.2 else V(rng.randint(1, 9))
+    if w and e[0] == 'v' and rw_spec(['change', spec]).endswith(':target'):
+        e = V(0)       # `target` is checked against the limit `target_max` (checkLimits, a RangeError otherwise): 0 always passes
+    return ['change' if w else 'read', spec, e + [stamps.next()]]
 
 
 A, D, I, X = 'activate', 'deactivate', ['ident'], ['disconnect']
 V, E = (lambda n: ['v', n]), (lambda k: ['e', k])
+Vt, Et = (lambda n, t: ['v', n, T0 + t]), (lambda k, t: ['e', k, T0 + t])
+RD, CH = (lambda spec, e: ['read', spec, e]), (lambda spec, e: ['change', spec, e])
+EXPORT = {'value': 'value', 'a': '_a', 'ab': '_ab', 'target': 'target', 'target_max': 'target_max'}
 
 CATALOGUE = [
     scn('act-deact-global', ['T'], [[[A, None], [D, None]]], [[['T', 'value', V(1)], ['T', 'value', V(2)]]]),
@@ -559,6 +851,42 @@ CATALOGUE = [
         [[['H', 'value', V(3)], ['T', 'value', V(4)], ['H', 'a', E(0)]]], hidden_mods=['H']),
     scn('omit-unchanged-two-updaters', ['T'], [[[A, 'T:_a']], [[A, 'T'], [D, 'T']]], [[['T', 'a', V(2)], ['T', 'a', V(2)]], [['T', 'a', V(2)]]],
         omit=['a', 'value']),
+    # ---- time stamps and omit windows that end during the run: the same value again inside / at the end of / after the window,
+    # ---- the last announcement of the run being an omitted one, a second connection activating after an omitted one
+    scn('window-inside-then-after', ['T'], [[[A, 'T:value']]], [[['T', 'value', Vt(1, 1)], ['T', 'value', Vt(1, 2)], ['T', 'value', Vt(1, 4)]]],
+        omit={'value': 2}),
+    scn('window-last-omitted', ['T'], [[[A, 'T']]], [[['T', 'a', Vt(3, 1)], ['T', 'a', Vt(3, 2)]]], omit={'a': 3}),
+    scn('window-late-activation', ['T'], [[[A, None]], [[A, 'T:_a'], [D, 'T:_a']]],
+        [[['T', 'a', Vt(3, 1)], ['T', 'a', Vt(3, 3)], ['T', 'a', Vt(3, 4)]]], omit={'*': 5}),
+    scn('window-stamps-go-back', ['T'], [[[A, 'T:value']]], [[['T', 'value', Vt(1, 5)], ['T', 'value', Vt(1, 3)], ['T', 'value', Vt(2, 2)]]]),
+    scn('window-two-updaters', ['T'], [[[A, 'T']]], [[['T', 'a', Vt(2, 1)], ['T', 'a', Vt(2, 5)]], [['T', 'a', Vt(2, 3)], ['T', 'a', Et(0, 4)]]],
+        omit={'a': 3}),
+    # ---- initial states other than a plain value: "not initialized" (ConfigError, no time stamp), an ordinary error
+    scn('uninit-activate-node', ['T', 'T2'], [[[A, None], [D, None]]], [[['T', 'value', V(1)]]], init={'T': {'value': 'uninit'}, 'T2': {'value': 'uninit'}}),
+    scn('uninit-activate-module', ['T'], [[[A, 'T']], [[A, 'T:value']]], [[['T', 'a', V(1)]]], init={'T': {'value': 'uninit'}}),
+    scn('uninit-repeated-error', ['T'], [[[A, 'T'], [D, 'T']]], [[['T', 'value', E(0)], ['T', 'value', E(0)]]], init={'T': {'value': 'uninit'}}),
+    scn('uninit-two-parameters', ['T'], [[[A, None]], [[A, 'T:_nd'], I]], [[['T', 'nd', V(4)], ['T', 'a', V(2)]]], cls='M2',
+        init={'T': {'value': 'uninit', 'nd': 'uninit'}}),
+    scn('initial-error-state', ['T'], [[[A, 'T']]], [[['T', 'a', E(1)], ['T', 'a', V(1)]]], init={'T': {'a': E(1), 'value': V(5)}}),
+    # ---- read / change requests: the request thread runs announceUpdate itself (holding the dispatcher lock)
+    scn('read-own-scope', ['T'], [[[A, 'T:value'], RD('T:value', Vt(5, 3))]], [[['T', 'value', Vt(1, 1)], ['T', 'value', Vt(2, 2)]]]),
+    scn('read-node-scope', ['T'], [[[A, None], RD('T', Vt(5, 3)), [D, None]]], [[['T', 'value', Vt(1, 1)], ['T', 'a', Vt(2, 2)]]]),
+    scn('read-other-conn-active', ['T'], [[RD('T:_a', Vt(5, 3)), RD('T:_a', Et(0, 4))], [[A, 'T'], [D, 'T']]], [[['T', 'a', Vt(1, 1)]]]),
+    scn('read-error', ['T'], [[[A, 'T'], RD('T:value', Et(0, 3)), RD('T:value', Et(0, 4)), RD('T:value', Vt(2, 5))]], [[['T', 'value', Vt(1, 1)]]]),
+    scn('read-without-driver', ['T'], [[[A, 'T'], RD('T:target', Vt(5, 3)), RD('T:nosuch', Vt(5, 3)), RD('zz', Vt(5, 3))]],
+        [[['T', 'target', Vt(1, 1)]]]),
+    scn('change-own-scope', ['T'], [[[A, 'T:_a'], CH('T:_a', Vt(7, 3)), [D, 'T:_a']]], [[['T', 'a', Vt(1, 1)], ['T', 'a', Vt(2, 5)]]]),
+    scn('change-default-target', ['T'], [[[A, 'T'], CH('T', Vt(0, 3))], [[A, 'T:target']]], [[['T', 'target', Vt(1, 1)]]]),
+    scn('change-refused-or-failing', ['T'], [[[A, 'T'], CH('T:value', Vt(7, 3)), CH('T:_a', Et(0, 4)), CH('T:_a', Vt(3, 5))]],
+        [[['T', 'a', Vt(1, 1)]]]),
+    scn('read-unchanged-in-window', ['T'], [[[A, 'T:value'], RD('T:value', Vt(1, 2)), RD('T:value', Vt(1, 5))]], [[['T', 'value', Vt(1, 1)]]],
+        omit={'value': 3}),
+    scn('read-two-conns-same-par', ['T'], [[[A, 'T:_a'], RD('T:_a', Vt(5, 3))], [[A, None], RD('T:_a', Vt(6, 4)), I]], [[['T', 'a', Vt(1, 1)]]]),
+    # ---- requests refused as malformed (data where none is allowed, no specifier): nothing may change, nothing ends
+    scn('malformed-requests', ['T'], [[[A, 'T'], ['bad', 'deactivate', 'T', 1], ['bad', 'activate', None, 1], ['bad', 'read', 'T:value', 1],
+                                       ['bad', 'change', None, 5], ['bad', 'activate', 'T:value', 1], [D, 'T']]],
+        [[['T', 'value', Vt(1, 1)], ['T', 'value', Vt(2, 2)]]]),
+    scn('read-hidden-module', ['T'], [[[A, None], RD('H:value', Vt(5, 3)), CH('H:_a', Vt(5, 4))]], [[['T', 'value', Vt(1, 1)]]], hidden_mods=['H']),
 ]
 
 
@@ -571,9 +899,19 @@ def gen_case(rng):
     def script():
         first = rng.choice(specs)
         out = [[A, first]]
+        stamps = Stamps(rng)
+        p_rw = rng.choice([0.0, 0.25, 0.5])
         for _ in range(rng.randint(0, 3)):
             r = rng.random()
-            if r < 0.35:
+            if rng.random() < p_rw:
+                # a read / change request, mostly of something in the scope just activated
+                rq = gen_rw(rng, mods, stamps, hidden=hidden)
+                if first and ':' in first and first.split(':', 1)[1] in ('value', '_a', '_ab') and rng.random() < 0.6:
+                    rq = ['read', first, rq[2]]
+                out.append(rq)
+            elif rng.random() < 0.06:
+                out.append(gen_bad(rng, specs))
+            elif r < 0.35:
                 out.append([A, rng.choice(specs + odd)])
             elif r < 0.75:
                 # often deactivate something that is a string prefix of an activated specifier
@@ -590,19 +928,25 @@ def gen_case(rng):
 
     def assignments():
         out = []
+        stamps = Stamps(rng)
         for _ in range(rng.randint(1, 3)):
             e = E(rng.randrange(len(ERRS))) if rng.random() < 0.25 else V(rng.randint(1, 9))
-            out.append([rng.choice(mods + hidden), rng.choice(FLOATS + ['h'] if hidden else FLOATS), e])
+            out.append([rng.choice(mods + hidden), rng.choice(floats + ['h'] if hidden else floats), e + [stamps.next()]])
             if rng.random() < (0.5 if e[0] == 'e' or omit else 0.1):
-                out.append(list(out[-1]))      # the same error / the same value again
+                out.append(out[-1][:2] + [e + [stamps.next()]])      # the same error / the same value again, a little later
         return out[:3]
     omit = gen_omit(rng)
     hidden = ['H'] if rng.random() < 0.2 else []
     if hidden:
         specs += ['H', 'H:value', 'T:h']
+    cls = 'M2' if rng.random() < 0.25 else None
+    floats = FLOATS + (['nd'] if cls else [])
+    if cls:
+        specs += [m + ':_nd' for m in mods]
+    init = gen_init(rng, mods, cls) if rng.random() < 0.4 else None
     handlers = [script() for _ in range(rng.choice([1, 1, 2, 2, 3]))]
     updaters = [assignments() for _ in range(rng.choice([1, 1, 2]))]
-    return scn('generated', mods, handlers, updaters, rng.random() < 0.15, omit, hidden)
+    return scn('generated', mods, handlers, updaters, rng.random() < 0.15, omit, hidden, cls, init)
 
 
 # ----------------------------------------------------------------------------------------
@@ -633,9 +977,6 @@ def cross_scope_matrix():
     return out
 
 
-EXPORT = {'value': 'value', 'a': '_a', 'ab': '_ab', 'target': 'target', 'target_max': 'target_max'}
-
-
 def gen_history(rng):
     """a long random history: 2-3 connections with 2-6 requests each (deactivations mostly of something the connection
     activated itself), 1-2 updaters with 3-8 assignments, most of the parameter scopes and assignments on 1-2 `hot`
@@ -655,9 +996,15 @@ def gen_history(rng):
 
     def script():
         out, mine = [], []
+        stamps = Stamps(rng)
+        p_rw = rng.choice([0.0, 0.2, 0.4])
         for _ in range(rng.randint(2, 6)):
             r = rng.random()
-            if r < 0.45 or not mine:
+            if mine and rng.random() < p_rw:
+                out.append(gen_rw(rng, mods, stamps, hot, hidden))
+            elif mine and rng.random() < 0.05:
+                out.append(gen_bad(rng, mine))
+            elif r < 0.45 or not mine:
                 mine.append(spec())
                 out.append([A, mine[-1]])
             elif r < 0.85:
@@ -672,16 +1019,19 @@ def gen_history(rng):
 
     def assignments():
         out = []
+        stamps = Stamps(rng)
         for _ in range(rng.randint(3, 8)):
             mn, a = (mods[0], rng.choice(hot)) if rng.random() < 0.7 else \
                 (rng.choice(mods + hidden), rng.choice(FLOATS + ['h'] if hidden else FLOATS))
-            out.append([mn, a, E(rng.randrange(len(ERRS))) if rng.random() < 0.15 else V(rng.randint(1, 3 if omit else 9))])
+            e = E(rng.randrange(len(ERRS))) if rng.random() < 0.15 else V(rng.randint(1, 3 if omit else 9))
+            out.append([mn, a, e + [stamps.next()]])
         return out
     omit = gen_omit(rng)
     hidden = ['H'] if rng.random() < 0.2 else []
+    init = gen_init(rng, mods, None) if rng.random() < 0.3 else None
     handlers = [script() for _ in range(rng.choice([2, 2, 3]))]
     updaters = [assignments() for _ in range(rng.choice([1, 1, 2]))]
-    kind, case = scn('history', mods, handlers, updaters, rng.random() < 0.1, omit, hidden)
+    kind, case = scn('history', mods, handlers, updaters, rng.random() < 0.1, omit, hidden, None, init)
     order = [n for n, scr in [('h%d' % (i + 1), h) for i, h in enumerate(handlers)]
              + [('u%d' % (i + 1), u) for i, u in enumerate(updaters)] for _ in scr]
     rng.shuffle(order)
@@ -776,6 +1126,12 @@ def run(ctx):
             res.count('never-blocked')
         if case.get('omit'):
             res.count('omit-window.' + ('unchanged-value-dropped' if obs['stat'].get('dropped') else 'nothing-dropped'))
+            if obs['stat'].get('window-ended'):
+                res.count('omit-window.unchanged-value-announced-after-its-window')
+        if obs['stat'].get('own'):
+            res.count('update-delivered-by-a-read-or-change-request')
+        if obs['stat'].get('uninit'):
+            res.count('parameter-not-initialized-at-start')
         if obs['stat'].get('hidden'):
             res.count('assignment-to-unexported-parameter')
         if obs['preempt'] and st['bcast'] and st['snap']:
